@@ -11,7 +11,9 @@ KF_MATCH = r"notifier during (the operation|this call)|destroyed exactly once ov
 META = {
  "assumptions": _c12.META["assumptions"] + [
   "keys and values are integer tokens: 'never touched / never freed without notifiers' is decided by CBMC's pointer checks (any dereference or free of a token is a violation)",
-  "notifier accounting: per (rank, identity) counters per phase (the operation, the following p_tree_free)"],
+  "notifier accounting: per (rank, identity) counters per phase (the operation, the following p_tree_free)",
+  "notifier configuration {both, key only, value only, none} of p_tree_new_full is a solver variable inside every query (NEWMODE 5, one reachability witness per configuration); "
+  "exactly-once is asserted per configured notifier, 'never called' for the unconfigured side"],
  "outside": ["trees higher than H before the operation", "histories longer than 3 (quick) / 4 (thorough) calls", "notifiers that re-enter the tree API"],
  "units_included_by_harness": tc.INCLUDED,
 }
@@ -26,6 +28,7 @@ MANIFEST = {
 }
 PROP = "C14"
 X = ["FREE_AFTER"]
+NM = 5      # p_tree_new_full with a SYMBOLIC notifier configuration: {both, key only, value only, none} decided inside every query
 
 
 def finding_open():
@@ -40,20 +43,20 @@ def queries(tier):
         # a third of the inserts / replaces; for the others it follows from 'post-state = valid tree with the reference content'
         # (checked in every query) + 'clear/free from every valid tree destroys exactly the stored pairs' (clear queries)
         for p in tc.insert_new_cases(h):
-            qs.append(step(PROP, tt, h, 0, p, 0, newmode=2, extra=X if p % 3 == 0 else ()))
+            qs.append(step(PROP, tt, h, 0, p, 0, newmode=NM, extra=X if p % 3 == 0 else ()))
         for p in tc.hit_cases(h):
-            qs.append(step(PROP, tt, h, 0, p, 1, newmode=2, extra=X if p % 3 == 1 else ()))   # replace: old key + old value destroyed
+            qs.append(step(PROP, tt, h, 0, p, 1, newmode=NM, extra=X if p % 3 == 1 else ()))   # replace: old key + old value destroyed
             for rc in tc.remcases(h, p):
                 if tc.two_child(rc):
                     # the class of the recorded finding: while it is open only the demonstration queries below run it
                     if is_open:
                         continue
                 # finding fixed: ordinary queries (no kf label: vf.classify would otherwise file their failures under the finding)
-                qs.append(step(PROP, tt, h, 1, p, 1, newmode=2, remcase=rc, extra=X))
+                qs.append(step(PROP, tt, h, 1, p, 1, newmode=NM, remcase=rc, extra=X))
         for p in (1, 2, 6, 11, 15):
-            qs.append(step(PROP, tt, h, 1, p, 0, newmode=2, extra=X))           # absent key: no notifier
-        qs.append(step(PROP, tt, h, 4, newmode=2, extra=["SYM_MAG"]))            # clear + free: everything exactly once
-        qs.append(step(PROP, tt, h, 3, newmode=2, extra=["SYM_MAG"]))            # foreach: no notifier
+            qs.append(step(PROP, tt, h, 1, p, 0, newmode=NM, extra=X))           # absent key: no notifier
+        qs.append(step(PROP, tt, h, 4, newmode=NM, extra=["SYM_MAG"]))            # clear + free: everything exactly once
+        qs.append(step(PROP, tt, h, 3, newmode=NM, extra=["SYM_MAG"]))            # foreach: no notifier
         # no notifiers given: nothing called, user objects never touched (pointer checks)
         qs.append(step(PROP, tt, h, 0, 1, 1, newmode=0, extra=X))
         qs.append(step(PROP, tt, h, 0, 5, 1, newmode=1))
@@ -63,13 +66,28 @@ def queries(tier):
     if is_open:
         # demonstration of the open finding: removal of a node with two children (one query -> one KNOWN-FINDING line; the same
         # failure exists in ptree-bst.c and ptree-avl.c: run `--only two_pred` with the finding marked fixed, or replay/native/C14_two_child_remove.c)
-        qs.append(step(PROP, 1, h, 1, 2, 1, newmode=2, remcase=3, extra=X, kf=KF, kf_match=KF_MATCH, tag="_kfdemo"))
-    qs += [hist(PROP, 0, 3, 2), hist(PROP, 1, 3, 2)]
-    qs += tc.avl_hist(PROP, 2, tier)
+        qs.append(step(PROP, 1, h, 1, 2, 1, newmode=NM, remcase=3, extra=X, kf=KF, kf_match=KF_MATCH, tag="_kfdemo"))
+    for tt in (0, 1, 2):
+        # the NULL pointer as user key / value (ptree.h allows it): the leaving pair is (NULL, NULL) in one removal per neighbourhood
+        # kind and in two replaces (removal by the NULL key itself); the inserted pair is (NULL, NULL); clear / foreach over a tree
+        # holding a NULL key and a NULL value
+        for p, rc in ((4, 0), (2, 1), (3, 2), (1, 3), (1, 4), (1, 0)):
+            qs.append(step(PROP, tt, h, 1, p, 1, newmode=NM, remcase=rc, extra=["NULLTOK=1"] + (X if tt == 0 or p == 1 else [])))
+        for p in (1, 5):
+            qs.append(step(PROP, tt, h, 0, p, 1, newmode=NM, extra=["NULLTOK=1"] + X))
+        for p in (1, 9):
+            qs.append(step(PROP, tt, h, 0, p, 0, newmode=NM, extra=["NULLTOK=2"] + X))
+        qs.append(step(PROP, tt, h, 4, newmode=NM, extra=["SYM_MAG", "NULLTOK=3"]))
+        qs.append(step(PROP, tt, h, 3, newmode=NM, extra=["SYM_MAG", "NULLTOK=3"]))
+        # the node allocation of an insert fails: no notifier runs (the caller keeps the pair), tree unchanged
+        for p in (1, 3, 4, 10, 15):
+            qs.append(step(PROP, tt, h, 0, p, 0, newmode=NM, extra=["ALLOC_FAIL"]))
+    qs += [hist(PROP, 0, 3, NM, extra=["NULLTOK=1"]), hist(PROP, 1, 3, NM, extra=["NULLTOK=1"])]
+    qs += tc.avl_hist(PROP, NM, tier, extra=["NULLTOK=2"])
     if tier == "thorough":
         # H=4: notifier accounting of the operation itself; the p_tree_free pass over a 16-node symbolic tree is left to the clear_h4 queries
-        qs += tc.thorough_h4(PROP, (), newmode=2, skip_two_child=is_open)
-        qs.append(step(PROP, 0, 4, 4, newmode=2, extra=["SYM_MAG"], timeout=1800))
-        qs.append(step(PROP, 1, 4, 4, newmode=2, extra=["SYM_MAG"], timeout=1800))
-        qs += [hist(PROP, 0, 4, 2, timeout=2400), hist(PROP, 1, 4, 2, timeout=3000)]
+        qs += tc.thorough_h4(PROP, (), newmode=NM, skip_two_child=is_open)
+        qs.append(step(PROP, 0, 4, 4, newmode=NM, extra=["SYM_MAG"], timeout=1800))
+        qs.append(step(PROP, 1, 4, 4, newmode=NM, extra=["SYM_MAG"], timeout=1800))
+        qs += [hist(PROP, 0, 4, NM, extra=["NULLTOK=1"], timeout=2400), hist(PROP, 1, 4, NM, timeout=3000)]
     return qs
